@@ -107,10 +107,12 @@ def LangCand (rules : List CoreRule) (ctxAt : Nat → Regex) (iter : List Nat) (
       k = iter.length ∧ firstLang ctxAt [] (matchingAccs rules (iter.map Sym.ch ++ [Sym.eoi])) = some a
     else firstLang ctxAt (iter.drop k) (matchingAccs rules ((iter.take k).map Sym.ch)) = some a
 
-/-- the run-time configuration of a compiled definition -/
+/-- the run-time configuration of a compiled definition; the inlined states are those the macro's
+current policy (`inlinedStates`) selects -/
 def Compiled.config {σ τ ε : Type} (c : Compiled) (actions : Nat → Action σ τ ε) (width : Nat → Nat)
     (input : Option (List Nat)) : Config σ τ ε :=
-  { dfa := c.dfa, ctxs := c.ctxs, entries := c.entries, actions := actions, width := width, input := input }
+  { dfa := c.dfa, ctxs := c.ctxs, entries := c.entries, inl := inlinedStates c.dfa, actions := actions,
+    width := width, input := input }
 
 /-- the entry state of a rule set in the final machine: the named entry, or state 0 for a definition
 without rule sets -/
